@@ -124,7 +124,7 @@ pub enum RunHow {
     EnterGuard,
     /// `frame.in_future(async { .. })`, awaited (block_on in sync code)
     InFuture,
-    /// moved to a fresh thread and `frame.call(..)`ed there
+    /// moved to a fresh thread and `frame.call(..)`ed there (without a frame: the items still run on a fresh thread)
     OtherThread,
 }
 
@@ -297,8 +297,8 @@ impl Numberer {
                     RunHow::OtherThread => false,
                     _ => false,
                 };
-                let items = self.items(items, if frame.is_some() { body_async } else { in_async });
-                let end = if frame.is_some() && *how == RunHow::OtherThread { Some(self.check()) } else { None };
+                let items = self.items(items, if frame.is_some() || *how == RunHow::OtherThread { body_async } else { in_async });
+                let end = if *how == RunHow::OtherThread { Some(self.check()) } else { None };
                 let post = self.check();
                 PItem::RunFrame { frame, how: *how, in_async, items, pre, end, post }
             }
@@ -371,7 +371,7 @@ pub fn unwinds(items: &[PItem]) -> bool {
         PItem::Panic => true,
         PItem::Span(n) => !n.form.is_handoff() && unwinds(&n.items),
         PItem::Push { items, .. } => unwinds(items),
-        PItem::RunFrame { frame, how, items, .. } => !(frame.is_some() && *how == RunHow::OtherThread) && unwinds(items),
+        PItem::RunFrame { how, items, .. } => *how != RunHow::OtherThread && unwinds(items),
         _ => false,
     })
 }
